@@ -167,10 +167,17 @@ func (x *Exec) monitorEnter(s *State, lock string, pos token.Pos) {
 	for _, inv := range mon.invs {
 		s.assume(env.evalBool(inv))
 	}
-	// the entry snapshot for old() of guarded state is taken at lock acquisition
-	if x.fn.top && x.fn.lockEntry == nil {
-		x.fn.lockEntry = s.clone()
-		x.fn.entry = x.fn.lockEntry
+	// old() of guarded state refers to its value at this path's first acquisition of the lock
+	for n, term := range s.heap {
+		if snap.heap[n] == term {
+			continue
+		}
+		if s.oldHeap == nil {
+			s.oldHeap = map[string]string{}
+		}
+		if _, ok := s.oldHeap[n]; !ok {
+			s.oldHeap[n] = term
+		}
 	}
 }
 
